@@ -113,7 +113,7 @@ func runBatches(w *W, prefix string, cases []*BCase, size int, oracle func(c *C,
 		}
 		batch := cases[i:j]
 		w.Case(fmt.Sprintf("%s/batch%d-%d", prefix, i, j-1), func(c *C) {
-			c.Add("evaluations_override", int64(len(batch)))
+			c.Add("evaluations_extra", int64(len(batch)))
 			for _, bc := range batch {
 				c.Distinct("all", bc.ID)
 				c.Distinct("nontrivial", bc.ID)
